@@ -68,9 +68,15 @@ def make_cl_class():
             self.sent = []     # (octets, tx parameters) handed to the CL, in order
             self.rx = {}
             self.next_id = 0
+            self.refuse_over = None    # fault: refuse bundles longer than this
+            self.refused = []
 
         @dbus.service.method(CL_IFACE, in_signature='aya{sv}', out_signature='s')
         def send_bundle_data(self, data, tx_params):
+            if self.refuse_over is not None and len(data) > self.refuse_over:
+                # the convergence layer cannot take this bundle (error reply over the bus)
+                self.refused.append(len(data))
+                raise dbus.exceptions.DBusException('bundle of %d octets refused by the convergence layer' % len(data))
             self.sent.append((bytes(int(b) for b in data), {str(k): v for (k, v) in dict(tx_params).items()}))
             return str(len(self.sent))
 
@@ -148,6 +154,7 @@ class BpWorld(World):
         (cl, agent) = self.in_proc(proc, make)
         proc.roots['cl'] = cl
         proc.roots['agent'] = agent
+        cl.refuse_over = prm.get('cl_refuse_over')
         self.escaped = []
         self.api_errors = []
         proc.bus.drain_records()
